@@ -15,7 +15,7 @@ ASSUMPTIONS = ["wall time and memory of the construct library are measured (time
                "exception escapes the model, every modelled loop terminates independently of its fuel, P1 parsing is linear"]
 
 
-class _Timeout(Exception):
+class _Timeout(BaseException):      # not an Exception: the library's own `except Exception` must not swallow the alarm
     pass
 
 
